@@ -2161,15 +2161,18 @@ class BackendMixin(PasswordHash):
         """
         helper for subclasses to create stub methods which auto-load backend.
         """
-        if cls.__backend:
-            raise AssertionError(
-                f"{cls.name}: _finalize_backend({cls.__backend!r}) failed to replace lazy loader"
-            )
-        cls.set_backend()
-        if not cls.__backend:
-            raise AssertionError(
-                f"{cls.name}: set_backend() failed to load a default backend"
-            )
+        # NOTE: set_backend() replaces the stub and records the backend name in two steps
+        #       (under _backend_lock); another thread may complete both of them after our
+        #       caller has already looked up the stub method, in which case there is nothing
+        #       left to do -- the caller re-dispatches to the real method.
+        with _backend_lock:
+            if cls.__backend:
+                return
+            cls.set_backend()
+            if not cls.__backend:
+                raise AssertionError(
+                    f"{cls.name}: set_backend() failed to load a default backend"
+                )
 
 
 class SubclassBackendMixin(BackendMixin):
